@@ -7,7 +7,9 @@ two-row spanning whose second row inherits, none} x column removal {none; page_b
 1 column at first / middle / last position; 2 columns (two page_by levels, two subline_by levels,
 page_by + subline_by)} x col_width {2, 6.25, 8.5, 12}, all with table-rendered footnote and source;
 radius-2 ball over orientation / footnote / source / nrow / new_page / pageby_header / row count around
-anchors; 2- and 3-section documents with different column counts; documents whose body / column-header
+anchors; 2- and 3-section documents with different column counts; header stacks whose rows have their own
+cell count (one full-span cell, fewer cells than columns) and own col_rel_width of that length (one-element
+list, scalar, list), alone and combined, single- and multi-section; documents whose body / column-header
 objects were used by an earlier document with another column count.
 
 Oracle (from the property text, on the re-parsed RTF):  W = round(col_width*1440).
@@ -129,9 +131,47 @@ def section_spec(sec: dict, n: int) -> dict:
     elif hm == "two_inherit":
         spec["header"] = "two"
         spec["two_widths"] = False
+    elif hm == "stack":
+        spec["header"] = "stack"
+        spec["header_stack"] = [stack_row(ck, wk, len(shown)) for ck, wk in sec["stack"]]
     else:
         spec["header"] = hm
     return spec
+
+
+def stack_cells(cells_kind, ncols):
+    """number of cells of a header row: 1 (one full-span cell), 'mid' (2, fewer than the columns), 'pen' (ncols - 1), 'all'"""
+    if cells_kind == 1:
+        return 1
+    if cells_kind == "mid":
+        return 2 if ncols >= 3 else None
+    if cells_kind == "pen":
+        return ncols - 1 if ncols >= 4 else None
+    return ncols
+
+
+def stack_row(cells_kind, widths_kind, ncols):
+    """header row with its OWN explicit col_rel_width of the row's own length (one-element list, scalar, list), or inheriting"""
+    m = stack_cells(cells_kind, ncols)
+    if widths_kind == "inherit":
+        w = None
+    elif widths_kind == "scalar":
+        w = 1
+    elif widths_kind == "single":
+        w = [2.5]
+    elif widths_kind == "ones":
+        w = [1] * m
+    else:  # ascending
+        w = [float(i + 1) for i in range(m)]
+    return {"cells": m, "widths": w}
+
+
+def stack_valid(stack, ncols):
+    for ck, wk in stack:
+        m = stack_cells(ck, ncols)
+        if m is None or (wk in ("scalar", "single") and m != 1) or (wk == "inherit" and m != ncols):
+            return False
+    return True
 
 
 def case_spec(case: dict) -> dict:
@@ -191,6 +231,14 @@ def expected_for_section(built, sspec, w_in):
         span = [max(1, k // 2), max(1, k - k // 2)] if k > 1 else [1]
         hdr[0] = ("own", bounds(span, w_in))
         hdr[1] = ("own", data) if sspec.get("two_widths", True) else ("inherited", data)
+    elif hm == "stack":
+        # every header row stands on its own: its cell count is its own, its widths are proportional to ITS col_rel_width
+        for r, row in enumerate(sspec["header_stack"]):
+            w = row["widths"]
+            if w is None:
+                hdr[r] = ("inherited", data)
+            else:
+                hdr[r] = ("own", bounds(list(w) if isinstance(w, (list, tuple)) else [w], w_in))
     unsliced = bounds(rel_unsliced, w_in) if rel_unsliced is not None and len(order) != len(shown) else None
     return {"data": data, "hdr": hdr, "unsliced": unsliced, "ncols": len(shown)}
 
@@ -281,6 +329,10 @@ def eval_case(case: dict) -> dict:
                         continue
                     kind, e = exp
                     cnt[f"header-{kind}"] = cnt.get(f"header-{kind}", 0) + 1
+                    if len(e) == 1 and sec["ncols"] > 1:
+                        cnt["header-one-cell-spanning-several-columns"] = cnt.get("header-one-cell-spanning-several-columns", 0) + 1
+                    elif 1 < len(e) < sec["ncols"]:
+                        cnt["header-fewer-cells-than-columns"] = cnt.get("header-fewer-cells-than-columns", 0) + 1
                     if not close(hobs, e):
                         report("header", hobs, e, f"{kind}-widths", inherited=(kind == "inherited"), sec=sec)
                 pending = []
@@ -394,6 +446,48 @@ def ball(anchor, radius):
     return out
 
 
+# header stacks: rows whose cell count differs from the column count (one full-span cell, k < ncols cells), each with an explicit
+# col_rel_width of the row's own length (one-element list, scalar, list), alone and above / between other header rows
+STACKS = (
+    [[1, "ones"]],
+    [[1, "scalar"]],
+    [["mid", "asc"]],
+    [[1, "ones"], ["all", "inherit"]],
+    [[1, "scalar"], ["all", "asc"]],
+    [[1, "single"], ["mid", "asc"], ["all", "inherit"]],
+    [[1, "ones"], ["pen", "ones"], ["all", "inherit"]],
+    [["mid", "ones"], ["all", "inherit"]],
+    [["all", "inherit"], [1, "single"]],
+)
+
+
+def stack_cases(kmax):
+    cases = []
+    for k in range(1, kmax + 1):
+        for rem in ([], [["pb", "mid" if k >= 2 else "first"]], [["sl", "first"]], [["pb", "first"], ["sl", "last"]]):
+            for rel in ("none", "asc"):
+                for cw in (2, 6.25):
+                    for st in STACKS:
+                        if not stack_valid(st, k):
+                            continue
+                        c = {"k": k, "header": "stack", "stack": st, "col_width": cw}
+                        if rem:
+                            c["removal"] = rem
+                        if rel != "none":
+                            c["rel"] = rel
+                        cases.append(c)
+    # the same rows in multi-section documents (nested and flat header lists)
+    for ka, kb in itertools.permutations(range(1, min(kmax, 4) + 1), 2):
+        for st in (STACKS[3], STACKS[5], STACKS[0]):
+            if stack_valid(st, ka) and stack_valid(st, kb):
+                cases.append({"sections": [{"k": ka, "header": "stack", "stack": st}, {"k": kb, "header": "stack", "stack": st, "rel": "asc"}],
+                              "col_width": 6.25})
+            if stack_valid(st, ka):
+                cases.append({"sections": [{"k": ka, "header": "stack", "stack": st}, {"k": kb, "header": "none"}],
+                              "multi_header": "flat", "col_width": 6.25})
+    return cases
+
+
 def multi_cases(kmax):
     cases = []
     ks = list(range(1, kmax + 1))
@@ -432,12 +526,16 @@ def plan(run):
                 "spanning, two-row with inheriting second row, none} x column removal {none, page_by/subline_by x first/middle/last, "
                 "three 2-column removals} x col_width {2, 6.25, 8.5, 12} with table footnote and source; radius-2 ball over orientation, "
                 "footnote, source, nrow, new_page/pageby_row, pageby_header, row count, default col_width around anchors; 2-/3-section "
-                "documents with different column counts; body/header objects re-used from an earlier document of another column count. "
+                "documents with different column counts; header stacks (1-3 header rows whose cell count may differ from the column count: one "
+                "full-span cell, 2 or ncols-1 cells, all columns; each such row with an explicit col_rel_width of its own length given as a "
+                "one-element list, a scalar or a list, label rows inheriting or own) x column count x 4 removals x 2 width modes x 2 col_widths, "
+                "also in nested / flat multi-section headers; body/header objects re-used from an earlier document of another column count. "
                 "Quick: the position of the wide column in the 'one 10' vector is rotated by VERIF_SEED, thorough: first/middle/last. "
                 "non-trivial = the document renders at least two different kinds of table row; distinct = distinct case")
     run.assumptions = [
         "the RTF reader (mc/rtfreader) extracts \\cellx correctly and rows are identified by sentinel tags only",
-        "an explicit header with own widths is given one width per displayed column (that is what its texts label)",
+        "an explicit header row with own widths is given one width per cell of THAT row (a one-element list or a scalar for a "
+        "single full-span cell); its boundaries are proportional to its own col_rel_width and it ends at the common right edge",
         "tolerance is one twip, as the property states; W = round(col_width * 1440)",
         "re-use of a component is only explored for components whose col_rel_width the user left unset (explicit widths of another "
         "column count would be a user error)",
@@ -454,11 +552,13 @@ def plan(run):
                 anchors.append(a)
     bcases = [c for a in anchors for c in ball(a, 2)]
     run.layer("ball-r2", "mc.props.c08:eval_case", bcases, chunk=50, total=len(bcases))
+    scases = stack_cases(kmax)
+    run.layer("header-stacks", "mc.props.c08:eval_case", scases, chunk=40, total=len(scases))
     mcases = multi_cases(4 if quick else 6)
     run.layer("multi-section", "mc.props.c08:eval_case", mcases, chunk=30, total=len(mcases))
     rcases = reuse_cases(4 if quick else 6)
     run.layer("reused-components", "mc.props.c08:eval_case", rcases, chunk=20, total=len(rcases))
     for need in ("rows-data", "rows-header", "rows-group", "rows-footnote_table", "rows-source_table", "header-inherited",
-                 "header-own", "with-column-removal", "multi-section", "reused-components", "pages>1"):
+                 "header-own", "header-one-cell-spanning-several-columns", "header-fewer-cells-than-columns", "with-column-removal", "multi-section", "reused-components", "pages>1"):
         if not run.cnt.get(need):
             run.harness_errors.append({"layer": "vacuity", "case": None, "error": f"counter {need} is zero: that part of the property was never exercised"})
